@@ -155,9 +155,11 @@ impl LinkFlowState<role::SenderMarker> {
         );
 
         if let Some(link_credit_rcv) = flow.link_credit {
-            let link_credit = delivery_count_rcv
-                .saturating_add(link_credit_rcv)
-                .saturating_sub(state.delivery_count);
+            // delivery-count is an RFC-1982 serial number: the deliveries the receiver has
+            // not yet accounted for (delivery-count_snd - delivery-count_rcv) are counted
+            // modulo 2^32 and then taken off the credit the receiver granted.
+            let link_credit = link_credit_rcv
+                .saturating_sub(state.delivery_count.wrapping_sub(delivery_count_rcv));
             state.link_credit = link_credit;
         }
 
